@@ -23,4 +23,4 @@ for o in res.obligations:
         print(f'  {o.status:10} {o.backend or "":14} {o.time:6.2f}s {o.kind:6} {o.name}  [{" > ".join(map(str, o.path_sig))[:300]}] {o.ladder}')
         if o.status == 'refuted' and getattr(o, 'replay', None):
             print('     replay:', str(o.replay)[:1500])
-print(f'total {time.time() - t0:.1f}s  pre_sat={getattr(res, "pre_sat", None)}')
+print(f"total {time.time() - t0:.1f}s  explore {res.time - res.solver_time:.1f}s solver {res.solver_time:.1f}s pre_sat={getattr(res, 'pre_sat', None)}")
